@@ -1,5 +1,9 @@
 import JSight.RegexQuote
 import JSight.EnumEvents
+import JSight.EnumC2
+import JSight.EnumRouteEq
+import JSight.EnumCExamples
+import JSight.EnumGuess
 /-!
 # C18 — Named regex types behave like their inline forms (token extraction and hand-over)
 
@@ -47,5 +51,164 @@ theorem C18_enum_duplicate (pre ws0 post : List UInt8) (its1 : List Item) (dup :
     scanAll (renderEnum pre ws0 (its1 ++ dup :: its2) post)
       = .error (.duplicate (pre.length + 1 + ws0.length + (renderInit its1).length + dup.1.length)) :=
   enum_duplicate pre ws0 post its1 dup its2 hpre hws0 hv hnd hdup
+
+end Props.C18
+
+/-! ### comments in the rule text, exponents, named rule = inline list
+
+Text grammar (`JSight/EnumC.lean`): `pre [ lay item , item … ] lay`, `item = lay token lay`; `pre` is blank bytes (the
+enum scanner accepts no comment before `[`); every `lay` is a layout WITH comments — any sequence of blank bytes,
+`// sp* text line-break` and `/* ws* text */` (the two comment forms of `rules/enum/scanner.go`; no `#` comments) —
+i.e. comments wherever the scanner accepts them: after `[`, before and after every item, after `]`.
+`blankOut` overwrites every comment byte by a space (same length, same offsets). -/
+namespace Props.C18
+open EnumScan
+
+/-- **C18 (1) — comments are ignored.** Scanning succeeds with the predicted events; without the comments' own events
+they are, spans included, the events of the text whose comments are blanked out (which is what the scanner delivers for
+THAT text); `Values` lists the item tokens in source order; `Len` is the length of the text without its trailing
+blanks — a comment behind the closing bracket is INSIDE `Len`. -/
+theorem C18_enum_comments_ignored (pre : List UInt8) (ws0 post : LayB) (items : List ItemC)
+    (hpre : IsWsB pre) (hws0 : ws0.Valid) (hpost : post.Valid) (hv : GValidItemsC items)
+    (hnd : (items.map itemKeyC).Nodup) :
+    scanAll (renderEnumC pre ws0 items post) = .ok (enumEvsC pre ws0 items post) ∧
+    dropComments (enumEvsC pre ws0 items post)
+      = enumEvsOf pre (LayB.blankOut ws0) (items.map blankItem) (LayB.blankOut post) ∧
+    scanAll (renderEnum pre (LayB.blankOut ws0) (items.map blankItem) (LayB.blankOut post))
+      = .ok (enumEvsOf pre (LayB.blankOut ws0) (items.map blankItem) (LayB.blankOut post)) ∧
+    (renderEnum pre (LayB.blankOut ws0) (items.map blankItem) (LayB.blankOut post)).length
+      = (renderEnumC pre ws0 items post).length ∧
+    valuesOf (renderEnumC pre ws0 items post) (enumEvsC pre ws0 items post) = items.map (·.2.1) ∧
+    length (renderEnumC pre ws0 items post) = .ok (rtrimB (renderEnumC pre ws0 items post)).length :=
+  ⟨enumC_events pre ws0 post items hpre hws0 hpost hv hnd,
+   enumC_filter pre ws0 post items hws0 hpost hv.valid,
+   enum_events pre _ _ _ hpre (LayB.blankOut_ws ws0 hws0) (LayB.blankOut_ws post hpost) (blank_valid items hv)
+     (by rw [List.map_map]; exact hnd),
+   renderEnum_blank_length pre ws0 post items,
+   enumC_values pre ws0 post items hv.valid,
+   enumC_length pre ws0 post items hpre hws0 hpost hv hnd⟩
+
+/-- … and duplicates are detected as without comments: the first item whose (decoded text, kind) repeats an earlier
+one is rejected with error 810 at the first byte of its token -/
+theorem C18_enum_comments_duplicate (pre : List UInt8) (ws0 post : LayB) (its1 : List ItemC) (dup : ItemC)
+    (its2 : List ItemC) (hpre : IsWsB pre) (hws0 : ws0.Valid) (hv : GValidItemsC (its1 ++ dup :: its2))
+    (hnd : (its1.map itemKeyC).Nodup) (hdup : itemKeyC dup ∈ its1.map itemKeyC) :
+    scanAll (renderEnumC pre ws0 (its1 ++ dup :: its2) post)
+      = .error (.duplicate (pre.length + 1 + (LayB.render ws0).length + (renderInitC its1).length
+          + (LayB.render dup.1).length)) :=
+  enumC_duplicate pre ws0 post its1 dup its2 hpre hws0 hv hnd hdup
+
+/-- **C18 (2) — the enum scanner has no exponent form.** Behind any prefix of valid items, any layout and a number of
+the grammar (`[-] int [frac]`), the letter `e` or `E` is rejected with error 301 at that byte, whatever follows.
+(Replayed on the library by `c18-routes`: `enum.New("@E", "[1e2]").Check()` = error 301 at index 2; the inline form
+`1 // {enum: [1e2]}` is rejected by the schema scanner in the same way.) -/
+theorem C18_enum_exponents (pre : List UInt8) (ws0 : LayB) (its1 : List ItemC) (l1 : LayB) (t : NumTok)
+    (num : List UInt8) (x : UInt8) (rest : List UInt8) (hpre : IsWsB pre) (hws0 : ws0.Valid)
+    (hv : GValidItemsC its1) (hnd : (its1.map itemKeyC).Nodup) (hl1 : l1.Valid) (hwf : t.WF)
+    (hnum : num.map SchemaScan.classify = t.render) (hx : x = 101 ∨ x = 69) :
+    scanAll (pre ++ (91 :: (LayB.render ws0 ++ (renderInitC its1 ++ (LayB.render l1 ++ (num ++ (x :: rest)))))))
+      = .error (.invalidChar (pre.length + 1 + (LayB.render ws0).length + (renderInitC its1).length
+          + (LayB.render l1).length + num.length) "isn't allowed 'cause not obvious it's a float or an integer") :=
+  enumC_exponent pre ws0 its1 l1 t num x rest hpre hws0 hv hnd hl1 hwf hnum hx
+
+-- non-vacuity, and the witness replayed on the library: `[1e2]`
+example : scanAll [91, 49, 101, 50, 93] = .error (.invalidChar 2 "isn't allowed 'cause not obvious it's a float or an integer") :=
+  C18_enum_exponents [] [] [] [] ⟨false, [.d19], none⟩ [49] 101 [50, 93] (by intro c hc; cases hc)
+    (by intro p hp; cases hp) (by intro it hit; cases hit) List.nodup_nil (by intro p hp; cases hp)
+    ⟨Or.inr ⟨[], rfl, by intro c hc; cases hc⟩, by intro d ds h; cases h⟩ (by decide) (Or.inl rfl)
+
+-- non-vacuity: ` [ // one⏎ 1 /* a*b */ , "a" //⏎ , true ] /* end */ ` (both comment forms, an empty `//`, a trailing comment)
+example : scanAll (renderEnumC xPre xWs0 xItems xPost) = .ok (enumEvsC xPre xWs0 xItems xPost) ∧
+    length (renderEnumC xPre xWs0 xItems xPost) = .ok (rtrimB (renderEnumC xPre xWs0 xItems xPost)).length :=
+  let h := C18_enum_comments_ignored xPre xWs0 xPost xItems xPre_ws xWs0_valid xPost_valid xItems_valid (by decide)
+  ⟨h.1, h.2.2.2.2.2⟩
+-- `[ // one⏎ 1 /* a*b */ , "a" //⏎ , 1 ]`: the third item repeats the first
+example : ∃ p, scanAll (renderEnumC xPre xWs0 ((xItems.take 2) ++ ([.blank 32], [49], []) :: []) xPost)
+    = .error (.duplicate p) :=
+  ⟨_, C18_enum_comments_duplicate xPre xWs0 xPost (xItems.take 2) ([.blank 32], [49], []) [] xPre_ws xWs0_valid
+    (by
+      intro it hit
+      simp only [List.take, xItems, List.cons_append, List.nil_append, List.mem_cons, List.not_mem_nil, or_false] at hit
+      rcases hit with rfl | rfl | rfl
+      · exact xItems_valid _ (by simp [xItems])
+      · exact xItems_valid _ (by simp [xItems])
+      · exact ⟨lay_sp_valid, (xItems_valid _ (List.mem_cons_self)).2.1, lay_nil_valid⟩)
+    (by decide) (by decide)⟩
+
+end Props.C18
+
+/-! ### named rule = inline list -/
+namespace Props.C18
+open EnumRoute
+
+/-- **C18 (3) — a named enum rule and the same list written inline give the constraint the same items.**
+Route A (`rules/enum/enum.go` `Values()` on the rule text — any layout with comments — then the loop of
+`enumValueLoader.ruleName` that appends every non-comment value: `appendValues`) and route B (the schema text
+`EX // {enum: [ … ]}` or `EX /* {enum: [ … ]} */` through the schema scanner model, the loader model and the enum-value
+sub-loader: `routeInline`) for the SAME item tokens in the same order (each route with its own layout): `Values()`
+succeeds, route A yields a constraint `cA`, route B exactly one constraint `cB`, both hold in source order the item
+tokens with the (value, jsonType) that `NewEnumItem` computes (decoded text for strings, SOURCE TEXT for everything
+else — K-C10-enumtext), hence `Enum.Validate` gives the same verdict on every document token. No side condition on the
+tokens: every scalar token of the grammar is known to both type guessers (`C18_tokens_guessable`). -/
+theorem C18_named_eq_inline (pre : List UInt8) (ws0 post : EnumScan.LayB) (items : List EnumScan.ItemC)
+    (a : SchemaScan.Ann) (ha : a.isAnn = true) (ex s1 s2 : List UInt8) (e : BEObj) (s3 tl : List UInt8)
+    (hpre : EnumScan.IsWsB pre) (hws0 : ws0.Valid) (hpost : post.Valid) (hv : EnumScan.GValidItemsC items)
+    (hnd : (items.map EnumScan.itemKeyC).Nodup) (hiv : InlineValid a ex s1 s2 e s3 tl)
+    (hsame : e.items.map (·.2.1) = items.map (·.2.1)) (name : List UInt8) (pos : Nat) :
+    ∃ vs cA cB,
+      ruleValues (EnumScan.renderEnumC pre ws0 items post) = .ok vs ∧
+      appendValues pos { ruleName := name } vs = .ok cA ∧
+      routeInline (inlineText a ex s1 s2 e s3 tl) = .ok [cB] ∧
+      proj cA = projToks (items.map (·.2.1)) ∧ proj cB = projToks (items.map (·.2.1)) ∧
+      cA.items.map (·.src) = items.map (·.2.1) ∧ cB.items.map (·.src) = items.map (·.2.1) ∧
+      ∀ d, enumOK cA d = enumOK cB d :=
+  named_eq_inline_grammar pre ws0 post items a ha ex s1 s2 e s3 tl hpre hws0 hpost hv hnd hiv hsame name pos
+
+/-- every scalar token of the grammar (string, number without exponent, true / false / null) is known to both type
+guessers: `GuessSchemaType` (the `Type` of `Values()`) and `json.Guess(…).JsonType()` (`NewEnumItem`) -/
+theorem C18_tokens_guessable (t : List UInt8) (h : EnumScan.GTok (t.map SchemaScan.classify)) : Guessable t :=
+  guessable_gtok t h
+
+/-- a scalar token of the enum grammar is a scalar token for the schema scanner (the inline route reads it) -/
+theorem C18_token_both_scanners {tk : List SchemaScan.Cls} (h : EnumScan.GTok tk) : SchemaScan.IsScalar tk :=
+  gtok_isScalar h
+
+/-- the verdict function of the model is the enum case of C02's `ValidateLiteralValue` model -/
+theorem C18_enumOK_is_ruleOK (o : RulesF.Oracles) (ex : List UInt8) (c : Cons) (d : List UInt8)
+    (hk : ∀ i ∈ c.items, RulesF.enumItem i.src = some i.key) :
+    enumOK c d = RulesF.ruleOK o ex d (.enum (c.items.map (·.src))) := by
+  unfold enumOK RulesF.ruleOK
+  cases RulesF.enumItem d with
+  | none => rfl
+  | some k =>
+    simp only [List.any_map, Function.comp_def]
+    have : ∀ (l : List CItem), (∀ i ∈ l, RulesF.enumItem i.src = some i.key) →
+        l.any (fun it => it.key == k) = l.any (fun it => RulesF.enumItem it.src == some k) := by
+      intro l
+      induction l with
+      | nil => intro _; rfl
+      | cons x xs ih =>
+        intro h
+        simp only [List.any_cons, h x (by simp), ih (fun i hi => h i (by simp [hi]))]
+        congr 1
+    exact this c.items hk
+
+-- non-vacuity: the rule text of the example above against `1 // { enum : [ 1, "a" ,true ] }` and against the /* */ form
+example : ∃ vs cA cB,
+    ruleValues (EnumScan.renderEnumC EnumScan.xPre EnumScan.xWs0 EnumScan.xItems EnumScan.xPost) = .ok vs ∧
+    appendValues 0 { ruleName := [64, 69] } vs = .ok cA ∧
+    routeInline (inlineText .inline [49] [32] [32] xObj [] []) = .ok [cB] ∧ ∀ d, enumOK cA d = enumOK cB d :=
+  let ⟨vs, cA, cB, h1, h2, h3, _, _, _, _, h8⟩ := C18_named_eq_inline EnumScan.xPre EnumScan.xWs0 EnumScan.xPost
+    EnumScan.xItems .inline rfl [49] [32] [32] xObj [] [] EnumScan.xPre_ws EnumScan.xWs0_valid EnumScan.xPost_valid
+    EnumScan.xItems_valid (by decide) xInline_valid (by decide) [64, 69] 0
+  ⟨vs, cA, cB, h1, h2, h3, h8⟩
+example : ∃ cB, routeInline (inlineText .multi [49] [32] [10] xObj [10] [42, 47, 10]) = .ok [cB] ∧
+    cB.items.map (·.src) = [[49], [34, 97, 34], [116, 114, 117, 101]] :=
+  let ⟨_, _, cB, _, _, h3, _, _, _, h7, _⟩ := C18_named_eq_inline EnumScan.xPre EnumScan.xWs0 EnumScan.xPost
+    EnumScan.xItems .multi rfl [49] [32] [10] xObj [10] [42, 47, 10] EnumScan.xPre_ws EnumScan.xWs0_valid
+    EnumScan.xPost_valid EnumScan.xItems_valid (by decide) xMulti_valid (by decide) [64, 69] 0
+  ⟨cB, h3, h7⟩
+-- the whole named route on the models (schema scanner, loader, sub-loader with the rule registered as `@E`) is evaluated
+-- in `JSight/EnumCExamples.lean` (`#eval`) and compared with the library by `c18-routes`
 
 end Props.C18
